@@ -86,7 +86,12 @@ func (v *Vue) evalSlot(ctx VueContext, node *html.Node, slotScope *SlotScope) ([
 	// Check for inherited slots from layout (passed via __slotScope__ in context data)
 	if inheritedSlotScopeData, ok := ctx.stack.EnvMap()["__slotScope__"]; ok {
 		if inheritedSlotScope, ok := inheritedSlotScopeData.(*SlotScope); ok {
-			if slotContent := inheritedSlotScope.GetSlot(slotName); slotContent != nil {
+			expanding := false
+			for _, name := range ctx.inheritedSlots {
+				expanding = expanding || name == slotName
+			}
+			if slotContent := inheritedSlotScope.GetSlot(slotName); slotContent != nil && !expanding {
+				ctx.inheritedSlots = append(ctx.inheritedSlots[:len(ctx.inheritedSlots):len(ctx.inheritedSlots)], slotName)
 				return v.evalSuppliedSlot(ctx, slotContent, slotProps)
 			}
 		}
